@@ -40,7 +40,8 @@ PROP = 'C18'
 LEVEL = 'exploration'
 RULE = ('full Cartesian products  {Twist3.Revolute: axis letter x axis length x point letter | Twist3.Prismatic: axis '
         'letter x axis length | Twist2.Revolute: point letter | Twist2.Prismatic: direction letter x length} x theta '
-        'letter x method (exp scalar float/np64/int, rad/deg; S*k; inv; se matrix through trexp) plus, per twist, '
+        'letter x method (exp scalar float/np64/int, rad/deg; S*k with k float/int, np64 at the k pi/2 and integer '
+        'letters; inv; se matrix and twist vector through trexp/trexp2) plus, per twist, '
         'every vector-theta form x unit and every accessor.  Block A: all axes x all lengths x the short point list; '
         'block B (thorough): all axes x length 1 x every point with coordinates in {0,+-1,0.7,+-1e3}^3.  theta '
         'letters: k pi/2 (|k|<=4) each with a +-10^k ladder clipped to [-2pi,2pi], a dense ladder at 0 including the '
@@ -93,6 +94,10 @@ def thetas(tier, seed):
         add(nm, b)
     for k in (1, -1, 2, -3, 6):
         add('i%d' % k, int(k))
+    # the iszerovec threshold 10 eps = 2.2e-15 (both tiers)
+    for en, ev in (('1e-15', 1e-15), ('2e-15', 2e-15), ('3e-15', 3e-15), ('1e-14', 1e-14)):
+        for s in (+1, -1):
+            add('0%s%s' % ('+' if s > 0 else '-', en), s * ev)
     # ladders: dense at 0 (where trexp / unittwist_norm / rodrigues branch), sparse elsewhere
     if tier == 'quick':
         k0, kb, ex = (-12, -9, -6, -3, -1), (-12, -6), ()
@@ -105,10 +110,6 @@ def thetas(tier, seed):
         for en, ev in ex + ((('1.4e-7', 1.4e-7),) if (b == 0.0 and ex) else ()):
             for s in (+1, -1):
                 add('%s%s%s' % (nm, '+' if s > 0 else '-', en), b + s * ev)
-    # the iszerovec threshold 10 eps = 2.2e-15 (both tiers)
-    for en, ev in (('1e-15', 1e-15), ('2e-15', 2e-15), ('3e-15', 3e-15), ('1e-14', 1e-14)):
-        for s in (+1, -1):
-            add('0%s%s' % ('+' if s > 0 else '-', en), s * ev)
     for n, v in alph.pick(alph.G_ANGLES_SMALL, tier, seed, 4):
         add(n, float(v))
     wide = [g - math.copysign(2 * PI, g) for g in alph.G_ANGLES_SMALL]      # pi < |theta| < 2 pi
@@ -367,13 +368,13 @@ class Twister:
             return None
         return S
 
-    def start(self, suffix, theta=None, n=1):
+    def start(self, suffix):
         cid = self.prefix + suffix
         if not self.ctx.want(cid):
             return None
         return cid
 
-    def one(self, cid, site, p, T, theta, alt=None, trivial=False):
+    def one(self, cid, site, p, T, theta, alt=None):
         v = judge(self.rs, T, theta, alt)
         self.ctx.cell(site, p.get('method'), p.get('unit'), p.get('form'), 'ok' if v is None else v[0])
         if v is not None:
@@ -448,8 +449,7 @@ class Twister:
             p = self.params(method='exp', theta=thf, thname=tn, unit='rad', form=fn)
             ok, got = call(S.exp, arg)
             m = self.pose(cid, site, p, ok, got)
-            if m is not None:
-                self.one(cid, site, p, m[0], thf)
+            if m is not None and self.one(cid, site, p, m[0], thf):
                 cache[fn] = m[0]
         # --- exp, degrees
         deg = math.degrees(thf)
@@ -477,6 +477,8 @@ class Twister:
         # --- scalar multiple
         msite = self.cn + '.__mul__'
         for fn, arg in forms:
+            if fn == 'np64' and not (isint or tn in DEGK):
+                continue        # numpy scalars: only at the integer and k pi/2 letters (same isinstance path as float)
             cid = self.start(base + 'm=mulk/' + fn)
             if not cid:
                 continue
